@@ -24,7 +24,10 @@ PRUNE = [
     H("H_C04_prune_filter", "two draws of Bool().Filter(id) on 6/7 symbolic words -> prune -> replay", reach=["valid", "invalid", "pruned-something"], quick=Q, thorough=T),
     H("H_C04_prune_perm", "Permutation of 3 elements (unbiased rejection loop) on 8/10 symbolic words -> prune -> replay", reach=["valid", "invalid", "pruned-something"], quick=Q, thorough=T),
     H("H_C04_prune_repeat", "T.Repeat with 1..2 actions, each a symbolic 3-opcode program over {return, draw bool, Errorf, Skip}, -rapid.steps=2, whole test case through checkOnce on 9/12 symbolic words -> prune -> replay: same verdict, same failure message, same re-recording", reach=["valid", "invalid", "failed", "pruned-something"], quick=Q, thorough=T),
+    H("H_C04_prune_program", "a whole test case given by a symbolic program of 2 (quick) / 3 (thorough) opcodes over {return, draw, Filter-draw, Errorf, Fatalf, panic, Skip, Custom(sub-program of 2 opcodes)} through checkOnce on 8/10 symbolic words -> prune -> replay: same verdict, same failure message, same top-level draws, same re-recording", reach=["valid", "invalid", "failed", "pruned-something"], quick=Q, thorough=T),
+    H("H_C04_prune_nested", "IntRange(0,4).Filter(x != 2) (rejected integer samples nested inside rejected Filter tries) followed by a raw word, on 10/13 symbolic words -> prune -> replay", reach=["valid", "invalid", "pruned-something"], quick=Q, thorough=T),
     H("H_C04_prune_repeatFilter", "T.Repeat with one action that starts with Bool().Filter(id).Draw (may exhaust its 5 tries) followed by 2 symbolic opcodes, on 14/18 symbolic words -> prune -> replay", reach=["valid", "invalid", "failed", "pruned-something"], quick=Q, thorough=T),
+    H("H_C04_history_runeTable", "RuneFrom over a range table containing surrogate code points, built three times in one process; equal bitstreams (8 bias words x 6 index words) must give equal runes", reach=["compared"], quick=Q, thorough=T),
 ]
 PRUNE_MORE = [
     H("H_C04_prune_intReject", "one bounded integer draw genUintRange(min,max,bias) for any 64-bit range (span bit length: 16 classes quick / all thorough), biased and unbiased, followed by a raw 64-bit draw, on 13/20 symbolic words (up to 11/18 rejected samples) -> prune -> replay", reach=["valid", "invalid", "pruned-something"], quick=Q, thorough=T),
@@ -149,6 +152,7 @@ PROPS = {
         "level": "model_checking",
         "harnesses": [
             H("H_C17_loadTotal", "real loadFailFile and checkFailFile on 15 malformed/unusable file shapes (empty, comments only, binary garbage, bad seed, extra '#', other version, now-passing, now-invalid, number overflow, truncated, missing version, negative seed, unreadable)", reach=["error", "loaded"], native=False, quick=Q, thorough=T),
+            H("H_C17_shortFile", "real checkTB with a fail file holding one word for a property that draws two and fails iff the second is zero: the file is an unusable one (its replay runs out of data), never 'failed after 0 tests'", reach=["ignored-and-passed", "reported"], native=False, quick=Q, thorough=T, search=["env.maphash"]),
             H("H_C17_mixed", "real doCheck with 1 (quick) / 1..2 (thorough) unusable files of every shape sorted in front of one usable fail file with the same seed, vs. the usable file alone: identical verdict tuple, the usable file is replayed first, no random test case runs", reach=["compared"], native=False, quick=Q, thorough=T),
             H("H_C17_ignored", "real doCheck (checks=2, symbolic seed, shrinktime 0) with 1 (quick) / 1..2 (thorough) unusable files of the 15 shapes present vs. an empty directory: verdict tuple and the sequence of random test cases compared", reach=["compared"], native=False, quick=Q, thorough=T),
         ],
@@ -196,6 +200,7 @@ PROPS = {
         "harnesses": [
             H("H_C05_compareData", "three buffers of 0..3 symbolic 64-bit words", reach=["compared", "equal"], quick=Q, thorough=T),
             H("H_C05_shrinkSteps", "the real shrink() with all its passes on a failing 5-word recording made of two same-label standalone groups of different length (payload words from 3 representatives, both orders), property failing at one site; every accepted candidate strictly smaller than its predecessor, result not larger than the input", reach=["accepted-step", "shrunk"], quick=Q, thorough=T),
+            H("H_C05_acceptCallbacks", "the accept step for 4-opcode programs over {return, draw, conditional, Errorf, Fatalf, Skip, two cleanup functions that fail}: failures raised inside cleanup functions (also one after the other) are failure sites of their own", reach=["accepted", "rejected"], sanity_reach=["accepted"], quick=Q, thorough=T),
             H("H_C05_accept", "pre-state = recording of any failing run of a symbolic 3-opcode program (2 fatal sites, data-dependent site, non-fatal site, panic, skip) on any buffer of <=3 (quick) / <=4 (thorough) words; candidate = any buffer of <=3/<=4 words; one call of the real accept", reach=["accepted", "rejected"], sanity_reach=["accepted"], quick=Q, thorough=T),
         ],
         "assumptions": ENGINE_ASSUME + ["dataStr (cache key of rejected candidates) is structural on symbolic words: a spurious cache miss re-runs the candidate with the same result"],
@@ -221,7 +226,9 @@ PROPS = {
     "C02": {
         "level": "model_checking",
         "harnesses": [H("H_C02_checkOnce", TSTATE_BOUNDS, reach=TSTATE_REACH, quick=Q, thorough=T),
-                      H("H_C09_failfileFlaky", "real checkTB with a valid fail file present and a property whose outcome per invocation is chosen by the solver (fails on the first replay, passes on the second, ...): a falsified invocation always fails the test", reach=["falsified", "failfile-falsified"], native=False, quick=Q, thorough=T)],
+                      H("H_C09_failfileFlaky", "real checkTB with a valid fail file present and a property whose outcome per invocation is chosen by the solver (fails on the first replay, passes on the second, ...): a falsified invocation always fails the test", reach=["falsified", "failfile-falsified"], native=False, quick=Q, thorough=T),
+                      H("H_C02_lateGoroutine", "real findBug with 2 test cases in the executor's concurrent mode: test case 1 starts a goroutine that calls t.Errorf on its *T at any later point (every interleaving, <=2 preemptions) up to the middle of test case 2, which waits for it; Check must report a failure", reach=["signal-seen-by-the-next-test-case", "signal-seen-by-its-own-test-case"], quick=Q, thorough=T, race=True, nodiff=True),
+                      H("H_C09_findBugStep", "one iteration of findBug from any loop state with a symbolic clock: a test case that ran and falsified the property is never dropped (see C09)", reach=["iterated", "failed", "early-exit"], quick=Q, thorough=T, search=["valid0", "invalid0", "checks"], search_any=True)],
         "assumptions": ENGINE_ASSUME + ["fail files live in the in-memory file system model"],
     },
     "C10": {
@@ -251,6 +258,7 @@ PROPS = {
             H("H_C03_permutation", "Permutation of 0..4 elements, 8/10 words; input unmodified", reach=["value", "invalid"], quick=Q, thorough=T),
             H("H_C03_sampledOneOfPtr", "SampledFrom(1..3 values), OneOf(Just,Just), Ptr(Bool(),false)", reach=["value", "invalid"], quick=Q, thorough=T),
             H("H_C03_filter", "Bool().Filter(id): predicate holds, at most 5 tries", reach=["value", "invalid"], quick=Q, thorough=T),
+            H("H_C03_floatRange", "Float64Range on 3 representative ranges ([1,3072.5], [-1.5,2.5], [0,+Inf]) with 8 symbolic words: every path of the real float kernel", reach=["value", "invalid"], quick=Q, thorough=T),
             H("H_C03_ufloat64", "genUfloatRange on any non-negative non-NaN float64 bounds min<=max (bit patterns symbolic; quick: exponents adjacent or at the denormal/infinite end), 7/9 words; result compared on bit patterns", reach=["value", "invalid"], thorough_only=True, thorough=T),
         ],
         "assumptions": [
